@@ -24,12 +24,7 @@ impl<'a> Read for SchedReader<'a> {
             if self.pos >= k {
                 self.fail_at = None;
                 // rotate through error kinds: the property makes no exception for any of them
-                let kind = match k % 4 {
-                    0 => io::ErrorKind::Other,
-                    1 => io::ErrorKind::Interrupted,
-                    2 => io::ErrorKind::WouldBlock,
-                    _ => io::ErrorKind::UnexpectedEof,
-                };
+                let kind = fault_kind(k);
                 return Err(io::Error::new(kind, "injected read fault"));
             }
         }
@@ -50,9 +45,21 @@ impl<'a> Read for SchedReader<'a> {
     }
 }
 
+/// the error kind of an injected fault rotates with the fault position: the property makes no
+/// exception for any kind
+pub fn fault_kind(k: usize) -> io::ErrorKind {
+    const KINDS: [io::ErrorKind; 10] = [
+        io::ErrorKind::Other, io::ErrorKind::Interrupted, io::ErrorKind::WouldBlock, io::ErrorKind::UnexpectedEof,
+        io::ErrorKind::BrokenPipe, io::ErrorKind::TimedOut, io::ErrorKind::WriteZero, io::ErrorKind::ConnectionReset,
+        io::ErrorKind::InvalidData, io::ErrorKind::NotFound,
+    ];
+    KINDS[k % KINDS.len()]
+}
+
 pub struct FaultWriter {
     pub out: Vec<u8>,
     pub fail_after: Option<usize>,
+    pub kind_shift: usize,
 }
 
 /// a writer that accepts at most `max` bytes per `write` call (legal for std::io::Write; only
@@ -75,7 +82,12 @@ impl Write for FaultWriter {
     fn write(&mut self, buf: &[u8]) -> io::Result<usize> {
         if let Some(k) = self.fail_after {
             if self.out.len() >= k {
-                return Err(io::Error::new(io::ErrorKind::Other, "injected write fault"));
+                // never Interrupted: std's write_all retries that kind, and this fault is persistent
+                let mut kind = fault_kind(k + self.kind_shift);
+                if kind == io::ErrorKind::Interrupted {
+                    kind = io::ErrorKind::BrokenPipe;
+                }
+                return Err(io::Error::new(kind, "injected write fault"));
             }
             let n = buf.len().min(k - self.out.len());
             self.out.extend_from_slice(&buf[..n]);
@@ -226,10 +238,20 @@ pub fn check_one(rep: &Report, cfg: &Cfg, b: &Built, pats: &[Vec<u8>], data: &[u
     if !ok {
         fail(rep, "find_iter", cfg, pats, data, si, spare, None, format!("expected {:?}, got {:?}", want, got));
     }
+    // ... and equals the in-memory iterator of the very same searcher
+    let mem = catch_unwind(AssertUnwindSafe(|| b.try_find_iter(data, 0, data.len(), false)));
+    let same = match (&got, &mem) {
+        (Ok(Ok(v)), Ok(Ok(m))) => v.len() == m.len() && v.iter().zip(m).all(|(a, b)| a.as_ref().ok() == Some(b)),
+        _ => false,
+    };
+    rep.case(!want.is_empty());
+    if ok && !same {
+        fail(rep, "find_iter vs in-memory", cfg, pats, data, si, spare, None, format!("the in-memory iterator of the same searcher gives {:?}, the stream iterator {:?}", mem, got));
+    }
     }
     // C08: table replacement and closure variant
     if do_replace {
-    let mut w = FaultWriter { out: vec![], fail_after: None };
+    let mut w = FaultWriter { out: vec![], fail_after: None, kind_shift: 0 };
     let r = catch_unwind(AssertUnwindSafe(|| stream_replace(b, SchedReader { data, pos: 0, sched: SCHEDS[si], i: 0, fail_at: None, eof: None }, &mut w, &repl)));
     rep.case(!want.is_empty());
     if !matches!(&r, Ok(Ok(()))) || w.out != want_out {
@@ -244,7 +266,7 @@ pub fn check_one(rep: &Report, cfg: &Cfg, b: &Built, pats: &[Vec<u8>], data: &[u
             fail(rep, "replace_all(short-write writer)", cfg, pats, data, si, spare, None, format!("expected '{}', got '{}'", show(&want_out), show(&sw.out)));
         }
     }
-    let mut w2 = FaultWriter { out: vec![], fail_after: None };
+    let mut w2 = FaultWriter { out: vec![], fail_after: None, kind_shift: 0 };
     let mut seen = vec![];
     let r = catch_unwind(AssertUnwindSafe(|| stream_replace_with(b, SchedReader { data, pos: 0, sched: SCHEDS[si], i: 0, fail_at: None, eof: None }, &mut w2, &mut seen)));
     let seen_ok = seen.len() == want.len() && seen.iter().zip(&want).all(|((m, bytes), w)| m == w && bytes[..] == data[w.start..w.end]);
@@ -263,7 +285,7 @@ pub fn check_one(rep: &Report, cfg: &Cfg, b: &Built, pats: &[Vec<u8>], data: &[u
         _ => want,
     };
     let want_out = {
-        let mut w = FaultWriter { out: vec![], fail_after: None };
+        let mut w = FaultWriter { out: vec![], fail_after: None, kind_shift: 0 };
         let _ = catch_unwind(AssertUnwindSafe(|| stream_replace(b, SchedReader { data, pos: 0, sched: SCHEDS[si], i: 0, fail_at: None, eof: None }, &mut w, &repl)));
         w.out
     };
@@ -300,7 +322,7 @@ pub fn check_one(rep: &Report, cfg: &Cfg, b: &Built, pats: &[Vec<u8>], data: &[u
         if !ok2 {
             fail(rep, "read-fault-resume", cfg, pats, data, si, spare, Some(k), format!("iteration continued after the (transient) read error: fault-free {:?}, got (items, ended) {:?}, reader reported end of stream: {}", want, got2, eof.load(std::sync::atomic::Ordering::Relaxed)));
         }
-        let mut w = FaultWriter { out: vec![], fail_after: None };
+        let mut w = FaultWriter { out: vec![], fail_after: None, kind_shift: 0 };
         let r = catch_unwind(AssertUnwindSafe(|| stream_replace(b, SchedReader { data, pos: 0, sched: SCHEDS[si], i: 0, fail_at: Some(k), eof: None }, &mut w, &repl)));
         rep.case(true);
         if !matches!(&r, Ok(Err(_))) || !want_out.starts_with(&w.out) {
@@ -309,7 +331,7 @@ pub fn check_one(rep: &Report, cfg: &Cfg, b: &Built, pats: &[Vec<u8>], data: &[u
     }
     // C18: a write fault after k bytes
     for k in 0..want_out.len() {
-        let mut w = FaultWriter { out: vec![], fail_after: Some(k) };
+        let mut w = FaultWriter { out: vec![], fail_after: Some(k), kind_shift: si + data.len() };
         let r = catch_unwind(AssertUnwindSafe(|| stream_replace(b, SchedReader { data, pos: 0, sched: SCHEDS[si], i: 0, fail_at: None, eof: None }, &mut w, &repl)));
         rep.case(true);
         if !matches!(&r, Ok(Err(_))) || !want_out.starts_with(&w.out) {
@@ -368,7 +390,7 @@ fn huge_pattern_case(rep: &Report, n: usize, do_find: bool, do_replace: bool, fa
                 }
             }
             if do_replace {
-                let mut w = FaultWriter { out: vec![], fail_after: None };
+                let mut w = FaultWriter { out: vec![], fail_after: None, kind_shift: 0 };
                 let r = catch_unwind(AssertUnwindSafe(|| stream_replace(&b, SchedReader { data: &data, pos: 0, sched: SCHEDS[si], i: 0, fail_at: None, eof: None }, &mut w, &repl)));
                 rep.case(true);
                 if !matches!(&r, Ok(Ok(()))) || w.out != want_out {
@@ -421,13 +443,13 @@ fn large_stream_case(rep: &Report, do_find: bool, do_replace: bool) {
             aho_corasick::verif::set_buffer_spare_capacity(None);
             if do_replace {
                 let want = t.replace_all_bytes(&data, &repl);
-                let mut w = FaultWriter { out: vec![], fail_after: None };
+                let mut w = FaultWriter { out: vec![], fail_after: None, kind_shift: 0 };
                 let r = catch_unwind(AssertUnwindSafe(|| t.try_stream_replace_all(SchedReader { data: &data, pos: 0, sched: SCHEDS[4], i: 0, fail_at: None, eof: None }, &mut w, &repl)));
                 rep.case(true);
                 if !matches!(&r, Ok(Ok(()))) || w.out != want {
                     rep.fail(Fail { key: format!("stream:large:replace:{}", total), what: format!("stream replacement of a {}-byte stream [{}]: {} bytes written, the in-memory replacement has {} ({:?})", total, cfg.encode(), w.out.len(), want.len(), r.map(|x| x.map_err(|e| e.to_string()))), argv: vec!["stream".into()] });
                 }
-                let mut w2 = FaultWriter { out: vec![], fail_after: None };
+                let mut w2 = FaultWriter { out: vec![], fail_after: None, kind_shift: 0 };
                 let mut nseen = 0usize;
                 let r2 = catch_unwind(AssertUnwindSafe(|| t.try_stream_replace_all_with(SchedReader { data: &data, pos: 0, sched: SCHEDS[4], i: 0, fail_at: None, eof: None }, &mut w2, |m, _b, w| { nseen += 1; w.write_all(&repl[m.pattern().as_usize()]) })));
                 rep.case(true);
@@ -476,6 +498,9 @@ pub fn run(args: &Args) -> Report {
     let pool = gen::strings(b"ab", 1, 3);
     let mut lists = gen::lists(&pool, 3, if thorough { 1 } else { 9 }, seed);
     lists.push(vec![b"abababab".to_vec(), b"bab".to_vec()]);
+    lists.push(vec![b"AB".to_vec()]);
+    lists.push(vec![b"BAB".to_vec()]);
+    lists.push(vec![b"A".to_vec(), b"Bb".to_vec()]);
     lists.push(vec![b"aaaaaaaaaaaa".to_vec(), b"aab".to_vec(), b"b".to_vec()]);
     // a pattern longer than 8 KiB: the retained tail (min) times 8 exceeds the default capacity
     let longpat: Vec<u8> = (0..9000usize).map(|i| b"ab"[(i * i / 7) % 2]).collect();
@@ -501,6 +526,7 @@ pub fn run(args: &Args) -> Report {
     // builder options that have no business with stream searching must not change it
     cfgs.push(Cfg { engine: Engine::TopAuto, sk: StartKindC::U, mk: Kind::Std, ci: false, pre: false, dd: Some(0), bc: false });
     cfgs.push(Cfg { engine: Engine::LowNonContig, sk: StartKindC::B, mk: Kind::Std, ci: true, pre: false, dd: Some(2), bc: true });
+    cfgs.push(Cfg { engine: Engine::TopAuto, sk: StartKindC::U, mk: Kind::Std, ci: true, pre: true, dd: None, bc: true });
     par_for(&lists, |pats| {
         for (ci, cfg) in cfgs.iter().enumerate() {
             if !thorough && faults && ci % 2 == 1 {
